@@ -299,6 +299,87 @@ func c05Run(e *core.Env) {
 	c05Base = jr.RenderAll(all[:3])
 	c05Family(e, drv, all[3:], core.Pick(e, 3, 4), "base-opens")
 	c05Base = ""
+	c05ManyFiles(e, drv)
+}
+
+// c05ManyFiles: a journal of 120 transactions (distinct amounts, two commodities) in one
+// file against the same directives spread one, two or five per file over many small
+// included files (flat, and through per-group index files with relative paths). Every
+// observation must agree with the single file: in process under the default schedule and
+// on the free-running binary with all CPUs.
+func c05ManyFiles(e *core.Env, drv *core.Driver) {
+	const n = 120
+	opens := "2019-12-31 open Assets:Bank\n2019-12-31 open Assets:Cash\n2019-12-31 open Expenses:Food\n2019-12-31 open Equity:Opening\n"
+	var trx []string
+	for i := 0; i < n; i++ {
+		acc, com := "Assets:Bank", "CHF"
+		if i%3 == 0 {
+			acc, com = "Assets:Cash", "USD"
+		}
+		trx = append(trx, fmt.Sprintf("2020-%02d-%02d \"t%03d\"\n%s Expenses:Food %d.%02d %s\n\n", 1+i%12, 1+i%28, i, acc, 1+i*7, i%100, com))
+	}
+	single := map[string]string{"root.knut": opens + strings.Join(trx, "")}
+	for _, per := range []int{1, 2, 5} {
+		if !e.Take() {
+			continue
+		}
+		drv.Files(single)
+		base, ab := c05Observe(drv, nil, "root.knut")
+		if ab != "" {
+			e.Violation("C05:abnormal:many-files", ab, c05Case{}, nil)
+			return
+		}
+		for _, nested := range []bool{false, true} {
+			files := map[string]string{}
+			var rootInc strings.Builder
+			groups := map[int]*strings.Builder{}
+			for f := 0; f*per < n; f++ {
+				name := fmt.Sprintf("t%03d.knut", f)
+				var b strings.Builder
+				for k := f * per; k < (f+1)*per && k < n; k++ {
+					b.WriteString(trx[k])
+				}
+				if nested {
+					g := f / 10
+					if groups[g] == nil {
+						groups[g] = &strings.Builder{}
+						fmt.Fprintf(&rootInc, "include \"g%02d/index.knut\"\n", g)
+					}
+					fmt.Fprintf(groups[g], "include \"../g%02d/%s\"\n", g, name)
+					files[fmt.Sprintf("g%02d/%s", g, name)] = b.String()
+				} else {
+					fmt.Fprintf(&rootInc, "include \"%s\"\n", name)
+					files[name] = b.String()
+				}
+			}
+			for g, b := range groups {
+				files[fmt.Sprintf("g%02d/index.knut", g)] = b.String()
+			}
+			files["root.knut"] = rootInc.String() + opens
+			drv.Files(files)
+			o, ab := c05Observe(drv, nil, "root.knut")
+			e.Count("evaluations")
+			e.Count("many_files_layouts")
+			tag := fmt.Sprintf("%d-per-file:nested=%v", per, nested)
+			if ab != "" {
+				e.Violation("C05:abnormal:many-files", ab+" ("+tag+")", c05Case{}, nil)
+				continue
+			}
+			if key, detail := c05Diff(base, o); key != "" {
+				e.Violation("C05:"+key+":many-files", tag+": "+clip(detail, 3000), c05Case{}, nil)
+				continue
+			}
+			// the same on the real binary, free-running with all CPUs
+			for i := 0; i < core.Pick(e, 3, 10); i++ {
+				b := drv.RunBinaryFree(60*time.Second, "balance", "--color=false", "--digits", "4", "root.knut")
+				e.Count("evaluations")
+				if want := strings.TrimPrefix(base.Bal[0], "exit=0\n"); b.Horizon || b.Exit != 0 || b.Stdout != want {
+					e.Violation("C05:balance:many-files:binary", fmt.Sprintf("%s, run %d of the real binary: exit %d, hang=%v\n%s\nwant:\n%s", tag, i+1, b.Exit, b.Horizon, clip(b.Stdout+b.Stderr, 1500), clip(want, 1500)), c05Case{}, nil)
+					break
+				}
+			}
+		}
+	}
 }
 
 func c05Family(e *core.Env, drv *core.Driver, pool []jr.Dir, maxK int, tag string) {
